@@ -4,7 +4,7 @@ import os, sys
 sys.path.insert(0, os.path.join(os.path.dirname(os.path.abspath(__file__)), '..'))
 import common
 
-GENERATED = ('unicode', 'tagregistry', 'tagsites')
+GENERATED = ('unicode', 'tagregistry', 'tagsites', 'tagstate')
 
 def main():
     chk = common.Check('C02')
